@@ -265,13 +265,6 @@ theorem isCase_label (cs : Bool) (t : CSem.Ty) (v : Int) : ∀ st, isCase cs t v
 theorem isDefault_label : ∀ st, isDefault st = true → isLabel st = true := by
   intro st h; cases st <;> simp [isDefault] at h <;> rfl
 
-theorem SInv.clear {M0 : Mem} {cs : Bool} {σ : List Nat} {vtys : List CSem.Ty} {s : Store} {env : Env} {M : Mem}
-    (h : SInv M0 cs σ vtys s env M) (l : List Nat) : SInv M0 cs σ vtys (CSem2.clear s l) env M := by
-  unfold CSem2.clear
-  induction l generalizing s with
-  | nil => exact h
-  | cons i l ih => exact ih (h.forget i)
-
 theorem caseKey_lt (t : CSem.Ty) (ht : t.promoted = true) (u : Nat) :
     Tree.caseKey t.size (t.signed true) u < 2 ^ 64 := by
   rcases promoted_cases true ht with ⟨hs, _⟩ | ⟨hs, _⟩
@@ -286,12 +279,12 @@ variable (T : Stat) {s : Store} {out : CSem2.Outcome} {lp : Bool × Bool} {brk c
   {nd nd' : Nat} {pre post : List Item} {env : Env} {M : Mem}
 
 theorem sim_switch (n : Nat) (ih : ∀ m, m ≤ n → SimStmt T m) (e : Expr) (b : Stmt)
-    (hex : exec T.S.cs T.P (n + 1) s (.switch_ e b) = some out) (hfr : frag T.P (.switch_ e b) = true)
+    (hex : exec T.S.cs T.P (n + 1) s (.switch_ e b) = some out) (hfr : frag T.P T.cnts (.switch_ e b) = true)
     (hwt : Stmt.wt T.vtys T.ret lp.1 lp.2 nd (.switch_ e b) = some nd') (hp : Pos T c nd pre)
     (hext : Ext T (funcstmt T.S.cs brk cont (.switch_ e b) c).ctx)
     (hits : T.S.its = pre ++ (funcstmt T.S.cs brk cont (.switch_ e b) c).items ++ post)
     (hlp : (lp.1 = true → CanJump T.S brk) ∧ (lp.2 = true → CanJump T.S cont))
-    (inv : SInv T.M0 T.S.cs T.σ T.vtys s env M) :
+    (inv : SInv T.M0 T.S.cs T.cnts T.σ T.vtys s env M) :
     Post T lp brk cont (T.at env M pre) (pre ++ (funcstmt T.S.cs brk cont (.switch_ e b) c).items)
       (funcstmt T.S.cs brk cont (.switch_ e b) c).ctx out := by
   simp only [frag] at hfr
@@ -473,12 +466,12 @@ theorem sim_switch (n : Nat) (ih : ∀ m, m ≤ n → SimStmt T m) (e : Expr) (b
         exact hpob.le k hkn
       · right
         exact hext.2 k (by show ob.ctx.slots.length ≤ k; rw [hpob.nslots]; omega) hk
-    have inv3 : SInv T.M0 T.S.cs T.σ T.vtys (CSem2.clear s (declIdx b)) env3 M := (inv1.env henv3).clear _
+    have inv3 : SInv T.M0 T.S.cs T.cnts T.σ T.vtys (CSem2.clear s (declIdx b)) env3 M := (inv1.env henv3).clear _
     have hreachL := (hreach1.trans (Reach.one hs2)).trans hreach3
     -- arriving at `switch_join`
     have hjoin : ∀ (s' : Store) (env' : Env) (M' : Mem) (st : State) (k : Nat),
         T.Reach k (T.at env M pre) st → AtLabel T.S (lblName "switch_join" (c.blockid + 2)) env' M' st →
-        SInv T.M0 T.S.cs T.σ T.vtys s' env' M' →
+        SInv T.M0 T.S.cs T.cnts T.σ T.vtys s' env' M' →
         Post T lp brk cont (T.at env M pre)
           (pre ++ (oe.items ++ ob.items ++ [.lbl (some (ob.ctx.jump.getD
             (.jmp (lblName "switch_join" (c.blockid + 2))))) (lblName "switch_cond" (c.blockid + 1)) []] ++
